@@ -51,7 +51,13 @@ pub fn run_case_with(seed: u64, program: &Program, mode: &mut Mode) -> Result<Ru
         Err(e) => return Err(e),
     };
     let reference = world_a::reference_answers(program, &trace)?;
-    let violations = world_a::check_oracles(program, &trace, &reference);
+    let mut violations = world_a::check_oracles(program, &trace, &reference);
+    // third C11 oracle (a quarter of the runs: it costs a battery of requests and one more server start)
+    if program.final_battery && !violations.iter().any(|v| v.property == "C11") {
+        if let Some(fresh) = world_a::fresh_answers(program, &trace)? {
+            violations.extend(world_a::check_against_fresh(&trace, &fresh));
+        }
+    }
     Ok(RunOut { trace, violations })
 }
 
